@@ -1,6 +1,6 @@
 (* C06 — Outbound QoS1/2: stored until acknowledged, retransmitted on session resume.
-   Statements only; proofs in Conn/Session.v, Conn/StoreInv.v, Conn/StoreInv2.v and Conn/Own.v, Conn/OwnFrame.v, Conn/OwnStep.v.  Nothing else may be added to this file. *)
-From MQ Require Import Base.Prelude Alloc.Alloc Conn.Types Conn.ConnRecord Conn.Step Corr.ConnTrace Conn.Run Conn.RecvGate Conn.Session Conn.StoreInv Conn.StoreInv2 Conn.Own Conn.OwnFrame Conn.OwnStep.
+   Statements only; proofs in Conn/Session.v, Conn/StoreInv.v, Conn/StoreInv2.v, Conn/Own.v, Conn/OwnFrame.v, Conn/OwnStep.v and Conn/Accepted5.v.  Nothing else may be added to this file. *)
+From MQ Require Import Base.Prelude Alloc.Alloc Conn.Types Conn.ConnRecord Conn.Step Corr.ConnTrace Conn.Run Conn.RecvGate Conn.Session Conn.StoreInv Conn.StoreInv2 Conn.Own Conn.OwnFrame Conn.OwnStep Conn.Accepted5.
 
 (* every state: an acknowledgement that matches nothing in flight is handled exactly like a
    protocol error — which erases no stored packet and frees no identifier (C06_error_keeps) *)
@@ -27,6 +27,19 @@ Theorem C06_accepted_sent_or_stored_v311 : forall c p,
   end.
 Proof. exact accepted_sent_or_stored_v311. Qed.
 Print Assumptions C06_accepted_sent_or_stored_v311.
+
+(* ... and v5.0, every state: a QoS>0 PUBLISH accepted without an error event is requested for sending at once —
+   as a PUBLISH with the same identifier (its topic may have been replaced by an alias) — or is in the store *)
+Theorem C06_accepted_sent_or_stored_v5 : forall g c p,
+  (k_qos p =? 0) = false ->
+  match send_publish_v5 g c p with
+  | Ok (c', e) =>
+      has_error e \/ (exists q, In q (sends e) /\ k_type q = k_type p /\ k_pid q = k_pid p) \/
+      store_has (k_pid p) (c_store c') = true
+  | Panic _ => True
+  end.
+Proof. exact accepted_sent_or_stored_v5. Qed.
+Print Assumptions C06_accepted_sent_or_stored_v5.
 
 (* every call of the API, every state, both versions: a call that is not a release point for x keeps
    x's entry in the store.  Release points ([releases]): the matching kind of acknowledgement carrying
@@ -110,9 +123,9 @@ Theorem C06_pubcomp_completes : forall g c id, OWN g c -> mem id (c_pubcomp c) =
 Proof. exact ack_PC_own. Qed.
 Print Assumptions C06_pubcomp_completes.
 
-(* C06_partial: what is still decided by the monitor mon_c06 (ghost store from operations and events
-   against the exported store) and the correspondence rather than a theorem: the v5.0 form of
-   accepted_sent_or_stored.  (For an endpoint created with an undetermined version the ownership
+(* C06_partial: on the MODEL side nothing of the property is left to the monitor alone.  The implementation
+   is judged by mon_c06 (ghost store from operations and events against the exported store) and tied to the
+   model by the correspondence.  (For an endpoint created with an undetermined version the ownership
    invariant is C08_fresh_ownership_invariant_any_version.) *)
 
 Example C06_nonvacuous :
